@@ -125,6 +125,8 @@ class Slicer:
         self.prog = prog
         self.max_depth = max_depth
         self._cache = {}
+        self.symbolic_upvars = False   # True: captured variables stay ('upvar', closure, i) (see apply_closure)
+        self._sym = None
 
     # -- public -------------------------------------------------------------------------------
     def operand(self, fn, op, _seen=None, _d=0):
@@ -163,6 +165,47 @@ class Slicer:
         v = self.local(f, 0)
         self._cache[key] = v
         return v
+
+
+    # -- interprocedural values ------------------------------------------------------------------
+    def inline_call(self, v, _stack=()):
+        """v = ('call', name, args, site) where name is a workspace function with a body: the value it returns,
+        expressed in the caller's terms (private helpers that only compute a value are transparent)"""
+        if not (isinstance(v, tuple) and v and v[0] == 'call'):
+            return None
+        g = self.prog.fns.get(v[1])
+        if g is None or g.path in _stack or len(_stack) > 6 or g.kind == 'Closure':
+            return None
+        rv = self.local(g, 0)
+        m = {(g.path, i): a for i, a in enumerate(v[2]) if i < g.argc}
+        return subst(rv, m, self)
+
+    def apply_closure(self, clv, args):
+        """value returned by calling closure / fn item clv with the given argument values, or None"""
+        if not (isinstance(clv, tuple) and clv):
+            return None
+        if clv[0] == 'closure':
+            g = self.prog.fns.get(clv[1])
+            if g is None:
+                return None
+            # the body is sliced with symbolic captures, which are then bound to the captured values of *this*
+            # closure value (they may themselves have been substituted, e.g. a closure built inside another closure)
+            if self._sym is None:
+                self._sym = Slicer(self.prog, self.max_depth)
+                self._sym.symbolic_upvars = True
+            rv = self._sym.local(g, 0)
+            m = {(g.path, 1 + i): a for i, a in enumerate(args)}
+            for i, uv in enumerate(clv[2]):
+                m[('upvar', g.path, i)] = uv
+            return subst(rv, m, self)
+        if clv[0] == 'fnitem':
+            g = self.prog.fns.get(clv[1])
+            if g is None:
+                return ('call', clv[1], tuple(args), None)
+            rv = self.local(g, 0)
+            m = {(g.path, i): a for i, a in enumerate(args)}
+            return subst(rv, m, self)
+        return None
 
     # -- internals ----------------------------------------------------------------------------
     def _const(self, k):
@@ -218,9 +261,9 @@ class Slicer:
             b = v[1]
             # (Try::branch(x) as Continue).0  ==> unwrap(x)
             if v[2] == 'Continue' and b[0] == 'call' and b[1] in ('std::ops::Try::branch',):
-                return ('unwrap', self._ok_core(b[2][0]))
+                return self.mk_unwrap(b[2][0])
             if v[2] in ('Some', 'Ok'):
-                return ('unwrap', self._ok_core(b))
+                return self.mk_unwrap(b)
             if v[2] == 'Err':
                 return ('unwrap_err', b)
             if v[2] == 'Break' and b[0] == 'call' and b[1] == 'std::ops::Try::branch':
@@ -233,6 +276,8 @@ class Slicer:
                     return uv
             return self._field(v[1], name)
         if k == 'closure_env' and name.isdigit():
+            if self.symbolic_upvars:
+                return ('upvar', v[1], int(name))
             return self._upvar(v[1], int(name))
         return ('field', v, name)
 
@@ -260,6 +305,26 @@ class Slicer:
         if v[0] == 'phi':
             return ('phi', tuple(self._variant(x, name) for x in v[1]))
         return ('variant', v, name)
+
+    MAP_LIKE = ('std::result::Result::<T, E>::map', 'std::option::Option::<T>::map')
+    AND_THEN = ('std::result::Result::<T, E>::and_then', 'std::option::Option::<T>::and_then')
+
+    def mk_unwrap(self, v, d=0):
+        """the success payload of v, in a normal form that does not depend on whether the code says
+        `f(x?)`, `x.map(f)?` or `x.and_then(|y| Ok(f(y)))?`"""
+        v = self._ok_core(v)
+        if d < 6 and v[0] == 'call' and len(v[2]) == 2 and v[2][1][0] in ('closure', 'fnitem'):
+            if v[1] in self.AND_THEN:
+                r = self.apply_closure(v[2][1], (self.mk_unwrap(v[2][0], d + 1),))
+                if r is not None:
+                    return self.mk_unwrap(r, d + 1)
+            elif v[1] in self.MAP_LIKE:
+                r = self.apply_closure(v[2][1], (self.mk_unwrap(v[2][0], d + 1),))
+                if r is not None:
+                    return r
+        if d > 0 and v[0] == 'agg' and v[2] in ('Ok', 'Some') and v[1] in ('std::result::Result', 'std::option::Option') and len(v[3]) == 1:
+            return v[3][0][1]
+        return ('unwrap', v)
 
     def _ok_core(self, v):
         """strip adapters that do not change the success payload"""
@@ -357,7 +422,7 @@ class Slicer:
             return self.operand(fn, call.args[0], seen, d)
         names = call.names()
         if names & UNWRAPPING:
-            return ('unwrap', self._ok_core(self.operand(fn, call.args[0], seen, d)))
+            return self.mk_unwrap(self.operand(fn, call.args[0], seen, d))
         # format!(..) -> fmt::format(Arguments::new(template, &args))
         if call.is_('std::fmt::format', 'alloc::fmt::format'):
             return self.operand(fn, call.args[0], seen, d)
@@ -395,6 +460,61 @@ def value_call_name(call):
                 call.res.startswith('<' + c) for c in ('libcnb', 'libherokubuildpack', 'cargo_libcnb')):
             return call.decl
     return call.name
+
+
+
+def canon(v):
+    """value with call-site identities removed (for comparing values computed at different sites)"""
+    if not isinstance(v, tuple) or not v:
+        return v
+    if v[0] == 'call' and len(v) == 4:
+        return ('call', v[1], tuple(canon(x) for x in v[2]))
+    if v[0] == 'icall' and len(v) == 4:
+        return ('icall', canon(v[1]), tuple(canon(x) for x in v[2]))
+    return tuple(canon(x) if isinstance(x, tuple) else x for x in v)
+
+
+def subst(v, mapping, slicer):
+    """replace ('param', fn, i, _) leaves by mapping[(fn, i)]; mapping['__repl__'] = [(canonical subtree, value)]
+    additionally replaces whole subtrees (loop elements bound to one row of an unrolled table)"""
+    repl = mapping.get('__repl__') if mapping else None
+    return _subst(v, mapping, slicer, repl)
+
+
+def _subst(v, mapping, slicer, repl):
+    if not isinstance(v, tuple) or not v:
+        return v
+    if v[0] == 'param':
+        r = mapping.get((v[1], v[2]))
+        return r if r is not None else v
+    if v[0] == 'upvar':
+        r = mapping.get(('upvar', v[1], v[2]))
+        return r if r is not None else v
+    if v[0] in ('const', 'fnitem', 'constitem', 'unknown', 'closure_env'):
+        return v
+    if repl and v[0] == 'unwrap':
+        cv = canon(v)
+        for key, new in repl:
+            if cv == key:
+                return new
+    out = []
+    changed = False
+    for x in v:
+        if isinstance(x, tuple):
+            y = _subst(x, mapping, slicer, repl)
+            changed = changed or (y is not x)
+            out.append(y)
+        else:
+            out.append(x)
+    if not changed:
+        return v
+    nv = tuple(out)
+    # re-normalise projections of substituted aggregates
+    if nv[0] == 'field' and nv[1][0] in ('agg', 'tuple', 'closure', 'phi', 'updated'):
+        return slicer._field(nv[1], nv[2])
+    if nv[0] == 'variant' and nv[1][0] in ('agg', 'phi'):
+        return slicer._variant(nv[1], nv[2])
+    return nv
 
 
 def _phi(vals):
